@@ -328,6 +328,7 @@ func makeIntrinsics() map[string]intrinsicFn {
 	addReflectIntrinsics(m)
 	addLibIntrinsics(m)
 	addProtoIntrinsics(m)
+	addBase64Intrinsics(m)
 	return m
 }
 
